@@ -237,11 +237,18 @@ pub fn check_fault(c: &FaultCase, obs: &mut Obs) -> Verdict {
             }
             Verdict::Pass
         }
-        // default PDF path already exists: never replaced
+        // default PDF path already exists: never replaced (single input: <input>.pdf; several
+        // inputs: report.pdf in the working directory)
         5 => {
-            let pdf = sc.path("in.pdf");
+            // the protection only matters for a run that would otherwise succeed: use the valid ledger
+            let multi = (c.fmt as usize + c.input as usize) % 2 == 1;
+            let valid = crate::led::to_dsl(&c.gl.ledger) + "\n";
+            let input_s = sc.write("in.cgt", &valid).to_string_lossy().to_string();
+            let pdf = if multi { sc.path("report.pdf") } else { sc.path("in.pdf") };
             std::fs::write(&pdf, b"OLD PDF").ok();
-            let o = proc::run_cli(&sc, &["report", &input_s, "--format", "pdf"]);
+            let extra = sc.write("extra.cgt", "# second input file\n").to_string_lossy().to_string();
+            let o = if multi { proc::run_cli(&sc, &["report", &input_s, &extra, "--format", "pdf"]) } else { proc::run_cli(&sc, &["report", &input_s, "--format", "pdf"]) };
+            obs.class(if multi { "default_pdf_several_inputs" } else { "default_pdf_single_input" });
             if is_f7_cli(&o) {
                 return f7();
             }
@@ -354,7 +361,14 @@ pub fn check_c08_cli(c: &crate::props::c08::Case, obs: &mut Obs) -> Verdict {
         obs.excluded += 1;
         return Verdict::Pass;
     }
-    let ledger = c08::apply_currencies(c);
+    let mut ledger = c08::apply_currencies(c);
+    // the DSL writer omits a zero FEES/TAX clause, so through the CLI such a field has no currency
+    for t in ledger.iter_mut() {
+        let ms = t.monies_mut();
+        if ms.len() == 2 && ms[1].a.is_zero() {
+            ms.into_iter().nth(1).expect("second").c = "GBP".into();
+        }
+    }
     let dsl = crate::led::to_dsl(&ledger);
     obs.hash = crate::led::hash_str(&format!("{dsl}#{:?}", c.folder));
     let table = c08::expected_table(&c.folder);
